@@ -126,6 +126,7 @@ type Exec struct {
 	lastLess        func(st *State, a, b string) string
 	curLoopWritable []string
 	inlineMode      bool
+	inlineDepth     int
 	scannerHandle   string
 	codeEnv         *Env
 	curLoopOrd      int
